@@ -313,6 +313,50 @@ def pipeline_case(col, rng):
                 col.violation('C17/first-not-lazy', '%s.first(): pulled %d, reference %d' % (rendering, src.pulls, rsrc.pulls), None)
 
 
+def markers_returned_by_later_stages_are_values(col):
+    """SKIP / STOP are honoured where the statement says so: by the Iter(subspec) stage.  What the callable of a chained map() returns
+    is the item the next stage receives, whatever it is - `Iter().map(f).map(g)` is map(g, map(f, src)) - also when f returns one of
+    the marker objects, for adjacent maps and maps separated by other stages"""
+    skip_odd = lambda x: SKIP if x % 2 else x
+    stop_from_3 = lambda x: STOP if x >= 3 else x
+    describe = lambda v: 'skipped' if v is SKIP else 'stopped' if v is STOP else 'value %s' % (v,)
+    keep = lambda v: v
+    plus = lambda x: x + 1
+    pipes = [
+        ('map(skip).map(describe)', lambda: Iter().map(skip_odd).map(describe), lambda s: map(describe, map(skip_odd, s))),
+        ('map(stop).map(describe)', lambda: Iter().map(stop_from_3).map(describe), lambda s: map(describe, map(stop_from_3, s))),
+        ('map.map(skip).map(describe)', lambda: Iter().map(plus).map(skip_odd).map(describe), lambda s: map(describe, map(skip_odd, map(plus, s)))),
+        ('map(skip).map(keep).map(describe)', lambda: Iter().map(skip_odd).map(keep).map(describe), lambda s: map(describe, map(keep, map(skip_odd, s)))),
+        ('base.map(skip).map(describe)', lambda: Iter(plus).map(skip_odd).map(describe), lambda s: map(describe, map(skip_odd, map(plus, s)))),
+        ('map(skip).limit.map(describe)', lambda: Iter().map(skip_odd).limit(4).map(describe), lambda s: map(describe, itertools.islice(map(skip_odd, s), 4))),
+        ('map(stop).filter.map(describe)', lambda: Iter().map(stop_from_3).filter(lambda v: v != 0).map(describe),
+         lambda s: map(describe, filter(lambda v: v != 0, map(stop_from_3, s)))),
+        ('map(skip) last', lambda: Iter().map(plus).map(skip_odd), lambda s: map(skip_odd, map(plus, s))),
+        ('T-map.map(skip).map(describe)', lambda: Iter().map(T + 1).map(skip_odd).map(describe), lambda s: map(describe, map(skip_odd, map(plus, s)))),
+        ('chunked.map(skip-on-list).map(describe)', lambda: Iter().chunked(2).map(lambda c: SKIP if sum(c) % 3 == 0 else c).map(describe),
+         lambda s: map(describe, map(lambda c: SKIP if sum(c) % 3 == 0 else c, chunked_iter(s, 2)))),
+    ]
+    for name, mk, ref in pipes:
+        spec = mk()
+        for src_name, mk_src in (('range(6)', lambda: PullCounter(list(range(6)))), ('empty', lambda: PullCounter([])),
+                                 ('infinite', lambda: PullCounter(lambda i: i % 5, infinite=True))):
+            for k in (0, 1, 3, 5) + ((None,) if src_name != 'infinite' else ()):
+                rsrc, gsrc = mk_src(), mk_src()
+                want = call(lambda: take(ref(rsrc), k) if k is not None else list(ref(rsrc)))
+                got = call(lambda: take(G(gsrc, spec), k) if k is not None else list(G(gsrc, spec)))
+                col.case(('markers-as-values', name, src_name, k), True)
+                col.count('pipelines_run')
+                col.count('marker_value_pipelines')
+                if want.ok != got.ok or (want.ok and got.value != want.value):
+                    col.violation('C17/output-differs:marker-returned-by-a-map-stage:' + name,
+                                  '%s over %s, first %s outputs: the composition gives %r, glom %r' % (short(spec), src_name, k, want, got), None)
+                    break
+                if gsrc.pulls > rsrc.pulls + 4:
+                    col.violation('C17/pulls-more-than-reference:marker-returned-by-a-map-stage', '%s over %s, %s outputs: reference pulled %d, glom %d'
+                                  % (short(spec), src_name, k, rsrc.pulls, gsrc.pulls), None)
+                    break
+
+
 def independent_stage_checks(col, rng):
     """chunked / windowed / unique against list-based re-implementations"""
     for _ in range(60):
@@ -404,6 +448,7 @@ def run(ctx):
     col.require('builder_prefixes_checked', 100)
     if ctx.shard == 0:
         independent_stage_checks(col, rng)
+        markers_returned_by_later_stages_are_values(col)
     for i in range(ctx.n(8000, 40000)):
         pipeline_case(col, rng)
     for i in range(ctx.n(1000, 5000)):
